@@ -191,8 +191,10 @@ class BinaryCarver(BaseCarver):
         # in summed_values
         add.at(summed_values, searchsorted(unique_indices, index_values), xtab.values)
 
-        # converting back to dataframe
-        return DataFrame(summed_values, index=unique_indices, columns=xtab.columns)
+        # converting back to dataframe, keeping groups in the order of the feature's modalities
+        ordered_indices = list(dict.fromkeys(index_values))
+        grouped_xtab = DataFrame(summed_values, index=unique_indices, columns=xtab.columns)
+        return grouped_xtab.loc[ordered_indices]
 
     def _association_measure(self, xtab: DataFrame, n_obs: int) -> dict[str, float]:
         """Computes measures of association between feature and target by crosstab.
